@@ -306,3 +306,75 @@ Proof.
     rewrite E. cbn [fold_right]. lia.
   - rewrite fit_value_routes_app. cbn [fold_right]. lia.
 Qed.
+
+(* ================= multi-activity jobs: the quote is the sum of the per-activity quotes on the shadow tours ================= *)
+Section Multi.
+Variable dur : Z -> Z -> Z.
+Variable m : Z -> Z -> Z.      (* leg measure of the objective: distance (or duration without waiting) *)
+
+Fixpoint apply_steps (t : list act) (steps : list (nat * act)) : list act :=
+  match steps with
+  | [] => t
+  | (idx, a) :: r => apply_steps (reschedule dur (insert_after t idx a)) r
+  end.
+
+Fixpoint multi_leg (t : list act) (steps : list (nat * act)) : Z :=
+  match steps with
+  | [] => 0
+  | (idx, a) :: r => leg_estimate m t idx a + multi_leg (reschedule dur (insert_after t idx a)) r
+  end.
+
+(* every step addresses an existing activity of the then-current shadow tour and inserts a job activity *)
+Fixpoint steps_ok (t : list act) (steps : list (nat * act)) : Prop :=
+  match steps with
+  | [] => True
+  | (idx, a) :: r => (idx < length t)%nat /\ is_terminal a = false /\ steps_ok (reschedule dur (insert_after t idx a)) r
+  end.
+
+Lemma has_jobs_app : forall A B, has_jobs (A ++ B) = has_jobs A || has_jobs B.
+Proof. intros; unfold has_jobs; apply existsb_app. Qed.
+
+Lemma has_jobs_resched_from : forall r l d, has_jobs (resched_from dur l d r) = has_jobs r.
+Proof.
+  unfold has_jobs. induction r as [|a r IH]; intros; cbn [resched_from existsb]; [reflexivity|].
+  rewrite IH. unfold is_terminal. cbn [a_job set_sched]. reflexivity.
+Qed.
+
+Lemma has_jobs_reschedule : forall t, has_jobs (reschedule dur t) = has_jobs t.
+Proof.
+  intros [|s r]; [reflexivity|]. unfold reschedule.
+  change (s :: resched_from dur (a_loc s) (a_dep s) r) with ([s] ++ resched_from dur (a_loc s) (a_dep s) r).
+  change (s :: r) with ([s] ++ r). rewrite !has_jobs_app, has_jobs_resched_from. reflexivity.
+Qed.
+
+Lemma has_jobs_after_insert : forall t idx a, is_terminal a = false -> has_jobs (reschedule dur (insert_after t idx a)) = true.
+Proof.
+  intros t idx a Ha. rewrite has_jobs_reschedule. unfold insert_after.
+  change (a :: skipn (S idx) t) with ([a] ++ skipn (S idx) t). rewrite !has_jobs_app.
+  unfold has_jobs at 2. cbn [existsb]. rewrite Ha. cbn. apply orb_true_r.
+Qed.
+
+Lemma multi_leg_exact_nonempty : forall steps t,
+  has_jobs t = true -> steps_ok t steps ->
+  total_distance m (apply_steps t steps) - total_distance m t = multi_leg t steps.
+Proof.
+  induction steps as [|[idx a] r IH]; intros t Hj Hok; cbn [apply_steps multi_leg]; [lia|].
+  destruct Hok as (Hidx & Ha & Hr).
+  pose proof (leg_estimate_exact m t idx a Hidx ltac:(intros H; congruence)) as H1. rewrite Hj in H1.
+  pose proof (IH _ (has_jobs_after_insert t idx a Ha) Hr) as H2.
+  rewrite total_distance_reschedule in H2. lia.
+Qed.
+
+(* the quote of a whole (multi-activity) job equals the change of the objective, an unused tour counting as 0 before *)
+Theorem multi_leg_exact : forall steps t,
+  steps <> [] -> steps_ok t steps ->
+  (has_jobs t = false -> (length t <= 2)%nat /\ fst (hd (0%nat, mkAct 0 0 0 0 0 dzero 0 0) steps) = 0%nat) ->
+  total_distance m (apply_steps t steps) - (if has_jobs t then total_distance m t else 0) = multi_leg t steps.
+Proof.
+  intros [|[idx a] r] t Hne Hok Hempty; [congruence|]. cbn [apply_steps multi_leg].
+  destruct Hok as (Hidx & Ha & Hr). cbn [hd fst] in Hempty.
+  pose proof (leg_estimate_exact m t idx a Hidx Hempty) as H1.
+  pose proof (multi_leg_exact_nonempty r _ (has_jobs_after_insert t idx a Ha) Hr) as H2.
+  rewrite total_distance_reschedule in H2. lia.
+Qed.
+End Multi.
